@@ -2,7 +2,7 @@
    (c04_rows_ir LANG CFG ITEMS RECONCILE)      rows the readers see in the MODEL's declarations
    (c04_rows_src LANG CFG FILE TSTRS TARGET_OS)  the same from source
    (c04_cells FILE)                            what the SOURCE says: ((ident depth default) ...)
-   (c04_judge LANG POS nDEPTH DEFAULT REF TMARK IMARK NULLU BASE)  -> (dom known good) *)
+   (c04_judge LANG POS nDEPTH DEFAULT REF TMARK IMARK NULLU BASE [(go NPS IRTYPE OVERRIDE)])  -> (dom known good) *)
 open Drv_base
 open Drv_ast
 open Drv_gen
@@ -73,15 +73,25 @@ let c04_cells args =
       (Model.c04_file_cells (to_file file))
   | _ -> raise (Bad "c04_cells args")
 
+(* optional last argument, Go only: (go NO_POINTER_SLICE IRTYPE OVERRIDE) - the verdict is then good_C04_go with
+   bare = c04_go_bare NO_POINTER_SLICE IRTYPE, or good_C04_go_override when the field carries a Go type override *)
 let c04_judge args =
-  match args with
-  | [A lang; pos; depth; dflt; rf; tm; im; nu; base] ->
+  let judge lang pos depth dflt rf tm im nu base go =
     let l = c04_lang_of lang in
     let e = { Model.c04e_pos = c04_pos_of pos; Model.c04e_depth = nat_of_int (to_int depth); Model.c04e_default = to_bool dflt;
               Model.c04e_ref = to_str rf } in
     let s = { Model.c04s_type_mark = to_bool tm; Model.c04s_init_mark = to_bool im; Model.c04s_null_union = to_bool nu;
               Model.c04s_base = to_str base } in
-    L [ of_bool (Model.dom_C04 l e); of_opt (fun c -> A (coqstring c)) (Model.known_C04 l e); of_bool (Model.good_C04 l e s) ]
+    let good =
+      match go with
+      | None -> Model.good_C04 l e s
+      | Some (nps, ty, ov) ->
+        if ov then Model.good_C04_go_override e s else Model.good_C04_go (Model.c04_go_bare nps ty) e s in
+    L [ of_bool (Model.dom_C04 l e); of_opt (fun c -> A (coqstring c)) (Model.known_C04 l e); of_bool good ] in
+  match args with
+  | [A lang; pos; depth; dflt; rf; tm; im; nu; base] -> judge lang pos depth dflt rf tm im nu base None
+  | [A "go"; pos; depth; dflt; rf; tm; im; nu; base; L [A "go"; nps; ty; ov]] ->
+    judge "go" pos depth dflt rf tm im nu base (Some (to_bool nps, Drv_ir.to_rtype ty, to_bool ov))
   | _ -> raise (Bad "c04_judge args")
 
 let () =
